@@ -132,4 +132,39 @@ PLANS = {
         "trace (every return value incl. kids() order and allocated ids, keys/kids/kid/v_print after every call, all printers every 16 calls) "
         "must agree; non-trivial = history with a merge creating >=2 vertices or a slice of >=3 vertices, replayed under >=3 other configurations",
         (150, 14), (2500, 150), floor=20),
+    "C07": {
+        "common": {
+            "level": "exploration",
+            "rule": "hostile histories: a legal random prefix with the model alongside (all API incl. clone/slice/merge/save+load/exports/scripts), "
+                    "exactly one limit overrun with a known outcome (id >= capacity; (N+1)-th label; 17th group member: must panic), then a "
+                    "tainted phase of wild ids, absent endpoints, self-binds, non-tree merges (reaching join()), next_id on full graphs, loads of "
+                    "truncated / bit-flipped / foreign-N images, malformed scripts, out-of-range Hex accessors, continued use after interrupted calls; "
+                    "every call under catch_unwind; run natively (debug assertions), under AddressSanitizer, Miri M1 (unmodified dependencies, "
+                    "validation off), Miri M2 (full validity + Stacked Borrows, one-line microstack patch) and, thorough tier, valgrind memcheck; "
+                    "each instrument must first report a canary; non-trivial = distinct (history, instrument) pairs with a caught overrun panic or a "
+                    "tainted phase of >= 20 calls",
+            "assumptions": ASSUME_COMMON + [
+                "debug-assertion builds, as the property states (emap's bounds checks are debug-only)",
+                "leaks are out of scope (emap never drops); capacities >= 1",
+                "a sanitizer-clean run is not memory safety: only the paths these workloads reach were observed",
+                "Miri M2 runs microstack with one changed line (uninit() -> zeroed() in Stack::new), see patches/microstack/PATCH-NOTE.md",
+            ],
+            "floor": 40, "shards": 16,
+        },
+        "quick": {"count": 250, "budget_s": 10, "watchdog_s": 400,
+                  "stages": ["asan", "miri1", "miri2"],
+                  "stage_plans": {
+                      "asan": {"shards": 16, "count": 250, "budget_s": 12, "watchdog_s": 400},
+                      "miri1": {"shards": 16, "count": 2, "budget_s": 40, "watchdog_s": 900},
+                      "miri2": {"shards": 16, "count": 2, "budget_s": 40, "watchdog_s": 900},
+                  }},
+        "thorough": {"count": 4000, "budget_s": 120, "watchdog_s": 1500,
+                     "stages": ["asan", "miri1", "miri2", "memcheck"],
+                     "stage_plans": {
+                         "asan": {"shards": 32, "count": 2500, "budget_s": 150, "watchdog_s": 2000},
+                         "miri1": {"shards": 64, "count": 5, "budget_s": 150, "watchdog_s": 2400},
+                         "miri2": {"shards": 64, "count": 4, "budget_s": 150, "watchdog_s": 2400},
+                         "memcheck": {"shards": 16, "count": 300, "budget_s": 150, "watchdog_s": 2400},
+                     }},
+    },
 }
